@@ -179,10 +179,13 @@ func genParse(t *rapid.T) ParseCase {
 	files := corpus.Files(2000)
 	c := ParseCase{Mode: rapid.IntRange(0, len(modes)-1).Draw(t, "mode"), Expr: rapid.IntRange(0, 5).Draw(t, "expr") == 0}
 	switch k := rapid.IntRange(0, 49).Draw(t, "kind"); {
-	case k < 28:
+	case k < 24:
 		c.Kind = "corpus-mutation"
 		f := files[rapid.IntRange(0, len(files)-1).Draw(t, "file")]
 		c.Src = corpus.Mutate(t, f.Data, rapid.IntRange(0, 4).Draw(t, "nmut"), files)
+	case k < 34:
+		c.Kind = "string-soup"
+		c.Src = stringSoup(t)
 	case k < 44:
 		c.Kind = "token-soup"
 		n := rapid.IntRange(1, 30).Draw(t, "ntok")
